@@ -611,8 +611,163 @@ fn gens_proj(gens: &[DVec3], i: usize, inp: &LInput) -> DVec3 {
     g
 }
 
+/// C06 on the implementation alone (a second, specification-independent route): the periodic
+/// result equals the central block of the NON-periodic tessellation of the 3^d-fold replicated
+/// generators in the tripled box, and is invariant under translation of all generators (wrapped).
+fn periodic_relations(inp: &LInput, emb: &Embedding, obs: &Observed, seed: u64, stats: &mut Stats) -> Vec<Fail> {
+    let mut fails = vec![];
+    let integ = match &obs.integ {
+        Ok(i) => i,
+        Err(_) => return fails,
+    };
+    let n = inp.gens.len();
+    if !inp.per || n > 16 {
+        return fails;
+    }
+    let gens = emb.generators(inp);
+    let anchor = emb.anchor(inp);
+    let width = emb.width(inp);
+    let tl = emb.tol_len(inp);
+    let scale = emb.scale(inp);
+    let d = inp.dim as i32;
+    let tol_area = 20.0 * tl * scale.powi(d - 2).max(tl.powi(d - 2).min(1.0));
+    let tol_vol = 50.0 * tl * scale.powi(d - 1);
+    let dim = inp.dimensionality();
+    // ---- replicated reflective run
+    let mut shifts: Vec<[i64; 3]> = vec![];
+    for a in -1..=1i64 {
+        for b in if inp.dim >= 2 { -1..=1i64 } else { 0..=0 } {
+            for c in if inp.dim >= 3 { -1..=1i64 } else { 0..=0 } {
+                shifts.push([a, b, c]);
+            }
+        }
+    }
+    let zero_pos = shifts.iter().position(|s| *s == [0, 0, 0]).unwrap();
+    let mut rep: Vec<DVec3> = vec![];
+    for s in &shifts {
+        for g in &gens {
+            let mut p = *g;
+            for k in 0..inp.dim {
+                p[k] += s[k] as f64 * width[k];
+            }
+            rep.push(p);
+        }
+    }
+    let mut ranchor = anchor;
+    let mut rwidth = width;
+    for k in 0..inp.dim {
+        ranchor[k] -= width[k];
+        rwidth[k] *= 3.0;
+    }
+    let mut mask = vec![false; rep.len()];
+    for i in 0..n {
+        mask[zero_pos * n + i] = true;
+    }
+    let r = guarded(|| VoronoiIntegrator::build(&rep, Some(&mask), ranchor, rwidth, dim, false));
+    match r {
+        Err(_) => stats.replica_panics += 1,
+        Ok(rint) => {
+            stats.replica_runs += 1;
+            for i in 0..n {
+                let (pc, rc) = match (integ.get_cell_at(i), rint.get_cell_at(zero_pos * n + i)) {
+                    (Some(a), Some(b)) => (a, b),
+                    _ => continue,
+                };
+                let pv = pc.compute_cell_integral::<(), VolumeCentroidIntegral>(());
+                let rv = rc.compute_cell_integral::<(), VolumeCentroidIntegral>(());
+                if (pv.volume - rv.volume).abs() > tol_vol || (pv.centroid - rv.centroid).length() > 50.0 * tl {
+                    fails.push(Fail { prop: "C06", what: "periodic cell differs from the central block of the replicated non-periodic tessellation".into(),
+                        detail: json!({"cell": i, "periodic_volume": pv.volume, "replicated_volume": rv.volume}) });
+                }
+                let mut pf: BTreeMap<(usize, [i64; 3]), f64> = BTreeMap::new();
+                for f in pc.compute_face_integrals::<(), ProbeFace>(()) {
+                    if let Some(j) = f.right() {
+                        let (s, _) = shift_index(f.shift(), width);
+                        *pf.entry((j, s)).or_insert(0.0) += f.integral().area;
+                    } else if f.integral().area > tol_area && f.integral().plane_idx < 2 * inp.dim {
+                        fails.push(Fail { prop: "C06", what: "boundary face along a periodic axis".into(), detail: json!({"cell": i, "area": f.integral().area}) });
+                    }
+                }
+                let mut rf: BTreeMap<(usize, [i64; 3]), f64> = BTreeMap::new();
+                for f in rc.compute_face_integrals::<(), ProbeFace>(()) {
+                    if let Some(j) = f.right() {
+                        *rf.entry((j % n, shifts[j / n])).or_insert(0.0) += f.integral().area;
+                    }
+                }
+                let keys: std::collections::BTreeSet<_> = pf.keys().chain(rf.keys()).cloned().collect();
+                for k in keys {
+                    let a = pf.get(&k).cloned().unwrap_or(0.0);
+                    let b = rf.get(&k).cloned().unwrap_or(0.0);
+                    if (a - b).abs() > tol_area {
+                        fails.push(Fail { prop: "C06", what: "neighbour relation / face area differs from the replicated non-periodic tessellation".into(),
+                            detail: json!({"cell": i, "ngb": k.0, "shift": k.1, "periodic_area": a, "replicated_area": b}) });
+                    }
+                }
+            }
+        }
+    }
+    // ---- translation invariance
+    let mut rng = seed ^ 0x9E3779B97F4A7C15;
+    let mut next = || {
+        rng ^= rng << 13;
+        rng ^= rng >> 7;
+        rng ^= rng << 17;
+        (rng >> 11) as f64 / (1u64 << 53) as f64
+    };
+    for trial in 0..2 {
+        let mut t = DVec3::ZERO;
+        for k in 0..inp.dim {
+            t[k] = if trial == 0 { (next() * 4.0).floor() * emb.h } else { (next() - 0.5) * 3.0 * width[k] };
+        }
+        let moved: Vec<DVec3> = gens.iter().map(|g| {
+            let mut p = *g + t;
+            for k in 0..inp.dim {
+                let mut r = (p[k] - anchor[k]) % width[k];
+                if r < 0.0 { r += width[k]; }
+                if r >= width[k] { r = 0.0; }
+                p[k] = anchor[k] + r;
+            }
+            p
+        }).collect();
+        let r = guarded(|| Voronoi::build(&moved, anchor, width, dim, true));
+        let base = match &obs.vor { Ok(v) => v, Err(_) => break };
+        match r {
+            Err(_) => stats.replica_panics += 1,
+            Ok(tv) => {
+                stats.translations += 1;
+                for i in 0..n {
+                    let a = base.cells()[i].volume();
+                    let b = tv.cells()[i].volume();
+                    if (a - b).abs() > tol_vol {
+                        fails.push(Fail { prop: "C06", what: "cell measure changes under translation of all generators".into(),
+                            detail: json!({"cell": i, "before": a, "after": b, "translation": t.to_array()}) });
+                    }
+                    let mut fa: Vec<f64> = base.cells()[i].faces(base).map(|f| f.area()).filter(|x| *x > tol_area).collect();
+                    let mut fb: Vec<f64> = tv.cells()[i].faces(&tv).map(|f| f.area()).filter(|x| *x > tol_area).collect();
+                    fa.sort_by(|x, y| x.partial_cmp(y).unwrap());
+                    fb.sort_by(|x, y| x.partial_cmp(y).unwrap());
+                    let same = fa.len() == fb.len() && fa.iter().zip(fb.iter()).all(|(x, y)| (x - y).abs() <= 2.0 * tol_area);
+                    if !same {
+                        // faces within 2*tol of the threshold may appear on one side only
+                        let sa: f64 = fa.iter().sum();
+                        let sb: f64 = fb.iter().sum();
+                        if (sa - sb).abs() > (fa.len() + fb.len()) as f64 * tol_area {
+                            fails.push(Fail { prop: "C06", what: "face areas change under translation of all generators".into(),
+                                detail: json!({"cell": i, "before": fa, "after": fb, "translation": t.to_array()}) });
+                        }
+                    }
+                }
+            }
+        }
+    }
+    fails
+}
+
 #[derive(Default)]
 pub struct Stats {
+    pub replica_runs: usize,
+    pub replica_panics: usize,
+    pub translations: usize,
     pub inputs: usize,
     pub runs: usize,
     pub cells_total: usize,
@@ -771,7 +926,10 @@ pub fn main_replay(args: &[String]) -> i32 {
             if obs.vor.is_err() || obs.integ.is_err() {
                 stats.panics += 1;
             }
-            let fl = compare(inp, emb, cells, &obs, &mut stats);
+            let mut fl = compare(inp, emb, cells, &obs, &mut stats);
+            if inp.per && ei <= 1 {
+                fl.extend(periodic_relations(inp, emb, &obs, seed ^ (gi as u64), &mut stats));
+            }
             if !fl.is_empty() && ftrace_path.is_some() {
                 // re-run the failing case with event recording on, for classification by VCellTrace
                 if ftrace_budget > 0 {
@@ -826,6 +984,7 @@ pub fn main_replay(args: &[String]) -> i32 {
             "exact_calls": stats.exact_calls, "runs_with_exact": stats.runs_with_exact,
             "traced_cells": stats.traced_cells, "panics": stats.panics,
             "untraced_failures": untraced_failures,
+            "replica_runs": stats.replica_runs, "replica_panics": stats.replica_panics, "translations": stats.translations,
         },
         "failures": failures,
         "samples": samples,
